@@ -14,7 +14,8 @@ permutation; (6) `detectRun` (driver side) answers as `C09.fromFileFull`; (7) wh
 returns satisfies the hypothesis `DetOk` of the theorems; (8)–(14) for the end-to-end theorems: `detectRun` answers as
 `C09.fromFileReal`, the all-keys counter never raises (same proof as `Lemmas/C08.lean`, which imports this property and cannot
 be imported here), `fromFileReal` = specification with nothing left as a parameter, least candidate = head of the list,
-decoded view of a stage, Guardrails fallback (`GuardClean`), `NotXorEncoded` in bytes. -/
+decoded view of a stage, Guardrails fallback (`GuardClean`), `NotXorEncoded` in bytes, (15) linear-time forms of `C20.xor` and
+slices of `replicate` (the 8 KiB Guardrails example is checked by the kernel). -/
 namespace C01
 open Gen.Extract
 
@@ -1077,5 +1078,105 @@ theorem notXorEncoded_of_no_candidate (f : PyFile)
   rintro c (⟨p, hp, _, hb⟩ | ⟨hlt, hrel⟩)
   · have := hm p hp; omega
   · exact absurd hrel (hs c hlt)
+
+/-! ### (15) linear-time forms of `C20.xor` (kernel evaluation of the 8 KiB Guardrails example) -/
+
+/-- `C20.xor` as a plain structural recursion (`List.mapIdx` accumulates in an `Array`, which the kernel evaluates in
+quadratic time) -/
+def xorLin (k : Bytes) : Bytes → Nat → Bytes
+  | [], _ => []
+  | b :: bs, i => (b ^^^ C20.keyAt k i) :: xorLin k bs (i + 1)
+
+theorem xorLin_length (k : Bytes) : ∀ (d : Bytes) (j : Nat), (xorLin k d j).length = d.length := by
+  intro d
+  induction d with
+  | nil => intro j; rfl
+  | cons b bs ih => intro j; simp only [xorLin, List.length_cons, ih]
+
+theorem xorLin_getElem (k : Bytes) : ∀ (d : Bytes) (j i : Nat) (h : i < (xorLin k d j).length),
+    (xorLin k d j)[i] = d[i]'(by rw [xorLin_length] at h; exact h) ^^^ C20.keyAt k (j + i) := by
+  intro d
+  induction d with
+  | nil => intro j i h; simp [xorLin] at h
+  | cons b bs ih =>
+    intro j i h
+    cases i with
+    | zero => simp [xorLin]
+    | succ i =>
+      simp only [xorLin, List.getElem_cons_succ]
+      rw [ih (j + 1) i]
+      congr 2
+      omega
+
+theorem xor_eq_xorLin (d k : Bytes) : C20.xor d k = xorLin k d 0 := by
+  apply List.ext_getElem
+  · rw [C17.xor_length, xorLin_length]
+  · intro i h1 h2
+    rw [C17.xor_getElem, xorLin_getElem, Nat.zero_add]
+
+theorem xor_eq_zipWith (d k : Bytes) (h : d.length ≤ k.length) : C20.xor d k = List.zipWith (· ^^^ ·) d k := by
+  apply List.ext_getElem
+  · rw [C17.xor_length, List.length_zipWith]; omega
+  · intro i h1 h2
+    rw [C17.xor_getElem, List.getElem_zipWith, C17.keyAt_lt]
+
+theorem occ_nil_of_byte (hay needle : Bytes) (b : UInt8) (hb : b ∈ needle) (hn : b ∉ hay) : C15.occ hay needle = [] := by
+  apply List.eq_nil_iff_forall_not_mem.mpr
+  intro i hi
+  obtain ⟨_, h⟩ := (C15.occ_iff hay needle i).mp hi
+  rw [← h] at hb
+  exact hn (List.mem_of_mem_drop (List.mem_of_mem_take hb))
+
+open Gen.Guardrails C17 in
+theorem noEarlierRecord_start (B : Nat) (data : Bytes) (n : Nat) (h : n + 6 ≤ BEACON_CONFIG_PATCH_SIZE) :
+    NoEarlierRecord B data n := by
+  intro off hoff m hm
+  rw [probeAt_none_early _ _ _ off (by omega)] at hm
+  cases hm
+
+theorem decodedView_length_le (data : Bytes) (c : Nat) : (decodedView data c).length ≤ data.length := by
+  simp only [decodedView, C09.rollDecode_length, List.length_drop]
+  omega
+
+
+theorem keyAt_const (k : Bytes) (c : UInt8) (hne : k ≠ []) (h : ∀ x ∈ k, x = c) (j : Nat) : C20.keyAt k j = c := by
+  have hpos : 0 < k.length := List.length_pos_iff.mpr hne
+  have hlt : j % k.length < k.length := Nat.mod_lt _ hpos
+  unfold C20.keyAt
+  rw [← List.getElem_eq_getD (h := hlt)]
+  exact h _ (List.getElem_mem hlt)
+
+theorem xorLin_const (k : Bytes) (c : UInt8) (hne : k ≠ []) (h : ∀ x ∈ k, x = c) :
+    ∀ (d : Bytes) (j : Nat), xorLin k d j = d.map (· ^^^ c) := by
+  intro d
+  induction d with
+  | nil => intro j; rfl
+  | cons b bs ih => intro j; simp only [xorLin, List.map_cons, ih, keyAt_const k c hne h]
+
+/-- a key whose bytes are all `c`: plain byte-wise xor with `c` -/
+theorem xor_const_key (d k : Bytes) (c : UInt8) (hne : k ≠ []) (h : ∀ x ∈ k, x = c) : C20.xor d k = d.map (· ^^^ c) := by
+  rw [xor_eq_xorLin, xorLin_const k c hne h]
+
+theorem zipWith_replicate_right {α β γ} (f : α → β → γ) (b : β) (rest : List β) :
+    ∀ (xs : List α) (n : Nat), xs.length ≤ n → List.zipWith f xs (List.replicate n b ++ rest) = xs.map (f · b) := by
+  intro xs
+  induction xs with
+  | nil => intro n _; simp
+  | cons x xs ih =>
+    intro n hn
+    cases n with
+    | zero => simp at hn
+    | succ n =>
+      rw [List.replicate_succ, List.cons_append, List.zipWith_cons_cons, ih n (by simpa using hn), List.map_cons]
+
+theorem slice_in_replicate {α} (l1 rest : List α) (n : Nat) (a : α) (c m : Nat) (h1 : l1.length ≤ c)
+    (h2 : c + m ≤ l1.length + n) : ((l1 ++ List.replicate n a ++ rest).drop c).take m = List.replicate m a := by
+  apply List.ext_getElem
+  · simp only [List.length_take, List.length_drop, List.length_append, List.length_replicate]; omega
+  · intro i hi1 hi2
+    simp only [List.length_replicate] at hi2
+    rw [List.getElem_take, List.getElem_drop, List.getElem_replicate,
+      List.getElem_append_left (by simp only [List.length_append, List.length_replicate]; omega),
+      List.getElem_append_right (by omega), List.getElem_replicate]
 
 end C01
